@@ -60,10 +60,31 @@ def switched_off_cases():
     return out
 
 
+def closed_form_zero_cases():
+    """A closed-form sequence whose sum (or product) is the NUMBER 0, as text and as a native integer: a formula that is given,
+    not one that is missing -- the repeated routine's resource is 0 and the hierarchy is compiled with its structure."""
+    import exprs as E
+
+    def node(name, params=(), links=(), kids=(), res=(), rep=None):
+        return {"name": name, "type": None, "input_params": list(params), "local_variables": [], "linked_params": [list(l) for l in links],
+                "ports": [], "resources": list(res), "connections": [], "repetition": rep, "children": list(kids)}
+    out = []
+    for sm, pr in ((E.num(0), E.sym("n")), (E.sym("n"), E.num(0)), (E.num(0), E.num(0)), (E.num(3), E.num(1))):
+        for native in (False, True):
+            step = node("step", params=["N"], res=[{"name": "T", "type": "additive", "value": E.op("mul", E.num(3), E.sym("N"))},
+                                                   {"name": "P", "type": "multiplicative", "value": E.op("add", E.sym("N"), E.num(1))}])
+            loop = node("loop", params=["N", "K"], links=[["N", [["step", "N"]]]], kids=[step],
+                        rep={"count": E.sym("K"), "sequence": {"kind": "closed_form", "sum": sm, "prod": pr, "num_terms_symbol": "n"}})
+            prep = node("prepare", params=["N"], res=[{"name": "T", "type": "additive", "value": E.sym("N")}])
+            out.append({"routine": node("walk", params=["N", "K"], links=[["N", [["prepare", "N"], ["loop", "N"]]], ["K", [["loop", "K"]]]], kids=[prep, loop]),
+                        "native": native, "expect_ok": True})
+    return out
+
+
 def streams(tier, seed):
     rng = lib.Rng(f"C10-{seed}")
     n = 160 if tier == "quick" else 3000
-    cases = lib.load_corpus(PROP, "hier-compile") + interleaved_port_cases() + switched_off_cases() + c01.gen_cases(rng, n, 3 if tier == "quick" else 4)
+    cases = lib.load_corpus(PROP, "hier-compile") + interleaved_port_cases() + switched_off_cases() + closed_form_zero_cases() + c01.gen_cases(rng, n, 3 if tier == "quick" else 4)
     # a third of the cases are compiled with derived resources named like resources of the hierarchy whose calculator
     # answers None ("not applicable") everywhere: the compiled hierarchy must be what it is without them
     import hier as H
